@@ -2,7 +2,7 @@
    correspondence cases (tools/props/c02.py). No proofs. *)
 From Coq Require Import List ZArith Bool Arith.
 From PV Require Import Base.Index Base.Perm Base.Sum Np.NpZ Np.Array Model.Sparse Model.Repr Model.Harness
-                       Model.C02Spec Model.C02Dense Model.C02Sparse.
+                       Model.C02Spec Model.C02Dense Model.C02Sparse Model.C02Modes Model.C02Kruskal Model.C02SpKernels Model.C02Absorb.
 Import ListNotations.
 
 Definition zsp_ttv := @spec_ttv Z 0%Z Z.add Z.mul.
@@ -64,3 +64,18 @@ Definition zimpl_normsq_sp := @impl_normsq_sp Z 0%Z Z.add Z.mul.
 Definition zimpl_ttv_k1 := @impl_ttv_k1 Z 0%Z Z.add Z.mul.
 Definition k_eqb (A B : ktensor Z) : bool :=
   vec_eqb (kweights A) (kweights B) && list_eqb mat_eqb (kfactors A) (kfactors B).
+
+(* tensor.ttv / tensor.ttm resolved by the GENERATED tt_dimscheck (Model/C02Modes.v): the raw request as the caller wrote it *)
+Definition zimpl_ttv_req := @impl_ttv_req Z 0%Z Z.add Z.mul.
+Definition zimpl_ttm_req := @impl_ttm_req Z 0%Z Z.add Z.mul.
+Definition zres_is (r : res (dense Z)) (T : dense Z) : bool := match r with Ok Y => dense_eqb Y T | Err => false end.
+
+(* Kruskal Gram/Hadamard kernels and sparse coordinate-list kernels at Z *)
+Definition zimpl_innerprod_kk := @impl_innerprod_kk Z 0%Z Z.add Z.mul.
+Definition zimpl_normsq_k := @impl_normsq_k Z 0%Z Z.add Z.mul.
+Definition zimpl_mttkrp_k := @impl_mttkrp_k Z 0%Z Z.add Z.mul.
+Definition zimpl_ttv_sp1 := @impl_ttv_sp1 Z 0%Z Z.add Z.mul.
+Definition zimpl_mttkrp_sp := @impl_mttkrp_sp Z 0%Z 1%Z Z.add Z.mul.
+
+(* get_mttkrp_factors for a Kruskal operand (weights absorbed into factor 1 if n = 0 else factor 0) *)
+Definition zget_mttkrp_factors_k := @get_mttkrp_factors_k Z Z.mul.
